@@ -35,7 +35,9 @@ EXPLANATION = (
     ' '
     'R-C07.10 (= R-C17.9) no __exit__ of the package returns anything but None/False.'
     ' '
-    'R-C07.11 (= R-C08.9) only utils.sql begins or ends transactions (who-may-call finish_transaction / new_transaction / commit).')
+    'R-C07.11 (= R-C08.9) only utils.sql begins or ends transactions (who-may-call finish_transaction / new_transaction / commit).'
+    ' '
+    'R-C07.4 accepts a factory classmethod of EvolutionExecutionError that receives the caught exception as a wrap site and counts handlers (not raises) for its floor.')
 NOT_DECIDED = (
     'Actual rollback behaviour of SQLite/Django for every failing statement '
     'index, and retry equivalence: these need execution (fault enumeration) '
@@ -422,6 +424,7 @@ def r4_failing_statement(ctx):
             ctx.ok(f, 'run_sql handler re-raises', h.ast)
     # wrap sites
     sites = 0
+    n_handlers = 0
     for wf in p.all_funcs():
         for n in walk_no_nested(wf.node):
             if not isinstance(n, ast.Try):
@@ -430,10 +433,29 @@ def r4_failing_statement(ctx):
                        for st in n.body for x in ast.walk(st)):
                 continue
             for h in n.handlers:
+                n_handlers += 1
                 raises = [x for st in h.body for x in ast.walk(st)
                           if isinstance(x, ast.Raise) and
                           isinstance(x.exc, ast.Call) and
                           call_name(x.exc) == 'EvolutionExecutionError']
+                # a factory classmethod of the error class that is handed
+                # the caught exception (EvolutionExecutionError.from_...(msg,
+                # e)) wraps it just the same
+                factory = [x for st in h.body for x in ast.walk(st)
+                           if isinstance(x, ast.Raise) and
+                           isinstance(x.exc, ast.Call) and
+                           isinstance(x.exc.func, ast.Attribute) and
+                           isinstance(x.exc.func.value, ast.Name) and
+                           x.exc.func.value.id == 'EvolutionExecutionError'
+                           and any(isinstance(a, ast.Name) and a.id == h.name
+                                   for a in list(x.exc.args) +
+                                   [k.value for k in x.exc.keywords])]
+                if factory:
+                    sites += len(factory)
+                    ctx.ok(wf, 'handler wraps the error through a factory of '
+                           'EvolutionExecutionError that receives the caught '
+                           'exception', factory[0])
+                    continue
                 if not raises and not any(
                         isinstance(x, ast.Raise) and x.exc is None
                         for st in h.body for x in ast.walk(st)):
@@ -476,7 +498,8 @@ def r4_failing_statement(ctx):
                     else:
                         ctx.finding(wf, rs.exc, 'last_sql_statement= is not '
                                     'taken from the caught exception')
-    ctx.floor('EvolutionExecutionError wrap sites around run_sql', sites, 4)
+    ctx.counts['R-C07.4 EvolutionExecutionError wrap sites around run_sql'] = sites
+    ctx.floor('handlers around run_sql calls', n_handlers, 4)
     # the command prints it
     cmd = p.func('management.commands.evolve', 'Command._perform_evolution')
     if 'last_sql_statement' in {x.attr for x in ast.walk(cmd.node)
